@@ -23,6 +23,10 @@ CLAIMED = {
          "The five border clauses are invariants of the model (branch-by-branch transcription of the border pass) and are evaluated by TLC on the \\clbrdr* of every table row of every page of real encodes, with distinguishable styles per setting."),
  "C08": ("5 C08", "TLC trace validation (integer cross-multiplied proportionality) of \\cellx read back from real encodes of TLC-generated scenarios",
          "Right edge, proportional boundaries within one twip, header alignment and single-cell spanning rows are evaluated by TLC on the cell boundaries of every table row, for 1..12 columns, removal of group columns at any position, four width patterns, four header modes and three paper sizes."),
+ "C09": ("5 C09", "TLC model checking of spec/CellFormat.tla + TLC trace validation (spec/CellTrace.tla) of every data cell's format read back from paginated and unpaginated encodes",
+         "For each of the 27 body attributes, in scalar / per-column / matrix shape, TLC generates tables, page splits and removed-column positions; the real encode is read back and TLC checks every data cell against the value the attribute specifies for its original (row, column), and against the unpaginated rendering of the same table."),
+ "C13": ("5 C13", "TLC model checking of spec/GroupBy.tla + TLC trace validation (spec/GroupTrace.tla) of group_by columns read back from real encodes",
+         "All key sequences over {a,b,null} up to length 4-6 (1-2 levels) exhaustively, longer ones with 1-3 levels by simulation: TLC checks the blanking rule per observed row (with the observed page structure), untouched other columns, fill-down, and ValueError iff non-contiguous."),
 }
 PENDING = {}
 
